@@ -45,7 +45,10 @@ func TestC17_JobsImmutableAndRunsCarryCaller(t *testing.T) {
 	evid.Check(t, 120, 600, func(t *rapid.T) {
 		salt := fmt.Sprintf("c17-%d", rapid.IntRange(0, 1<<30).Draw(t, "salt"))
 		chains := []chain.EvmChain{{RefID: "eth-main", ChainID: 1}, {RefID: "bnb-main", ChainID: 56}}
-		c, err := chain.New(chain.Options{Salt: salt, Stakes: []int64{100_000_000, 100_000_000, 100_000_000}, Users: []string{"u0", "u1"}, EvmChains: chains})
+		// on bnb-main sometimes no snapshot is recorded as published: the pre-execution hook (just-in-time validator-set
+		// update) fails there, and the request has to schedule the call all the same
+		unpublished := map[string]bool{"bnb-main": rapid.IntRange(0, 2).Draw(t, "bnbWithoutPublishedSnapshot") == 0}
+		c, err := chain.New(chain.Options{Salt: salt, Stakes: []int64{100_000_000, 100_000_000, 100_000_000}, Users: []string{"u0", "u1"}, EvmChains: chains, UnpublishedChains: unpublished})
 		if err != nil {
 			t.Fatalf("boot: %v", err)
 		}
@@ -288,6 +291,10 @@ func TestC17_JobsImmutableAndRunsCarryCaller(t *testing.T) {
 		}
 		if failBetween {
 			labels = append(labels, "failureBetweenSuccesses")
+		}
+		if unpublished["bnb-main"] {
+			labels = append(labels, "bnbWithoutPublishedSnapshot")
+			log = append([]string{"[bnb-main has no published snapshot]"}, log...)
 		}
 		evid.Case(t.Name(), strings.Join(log, " "), nt, labels, func() any { return log })
 	})
